@@ -181,6 +181,11 @@ def gen_constraint(rng, node, mode):
     # prefix-free: an address that is a proper prefix of another chosen address
     # (a bare-distribution branch next to a structured branch) cannot share a map
     chosen = [a for a in chosen if not any(b != a and b[: len(a)] == a for b in chosen)]
+    # ... also on static parts: under a vector combinator the entries at different
+    # indices are merged per index level, where a bare-distribution branch (static
+    # part ()) and a structured branch clash the same way
+    sp = {a: static_part(a) for a in chosen}
+    chosen = [a for a in chosen if not any(sp[b] != sp[a] and sp[b][: len(sp[a])] == sp[a] for b in chosen)]
     return [[list(a), support_value(rng, cm[a])] for a in chosen]
 
 
@@ -240,7 +245,9 @@ def profile_for(pid, tier):
         G["max_cost"] = 40.0
     if pid == "C12":
         G["root_kinds"] = {"scan": 5, "accumulate": 1, "reduce": 1, "iterate": 1, "iterate_final": 1, "static": 1, "dimap": 1}
-        P["ops"].update({"index_edit": 5, "regenerate": 4, "update": 4, "undo": 2})
+        P["ops"].update({"index_edit": 9, "regenerate": 4, "update": 4, "undo": 3})
+        G["scan_editable"] = 0.7
+        G["lens"] = [2, 2, 3, 3, 1]
     elif pid == "C11":
         G["root_kinds"] = {"vmap": 5, "repeat": 3, "static": 1, "dimap": 1}
         P["ops"].update({"index_edit": 4, "importance": 5})
